@@ -489,6 +489,59 @@ func (c *Ctx) ruleThresholds() {
 		}
 	}
 	r.Floor(rule, 10)
+	c.ruleGraphsPersist()
+}
+
+// ruleGraphsPersist: C02.persist — the per-type thresholds live in the graph object stored
+// under the event type; "read back as last set" needs that object to stay: Broker.graphs is
+// only ever extended with a fresh graph under a key that was just looked up and found absent;
+// entries are never deleted or replaced.
+func (c *Ctx) ruleGraphsPersist() {
+	p, r := c.P, c.R
+	const rule = "C02.persist"
+	n := 0
+	for _, f := range p.FuncsIn(PkgRoot) {
+		tb := p.NewTerms(nil)
+		eachInstr(f, func(in ssa.Instruction) {
+			switch x := in.(type) {
+			case ssa.CallInstruction:
+				if b, ok := x.Common().Value.(*ssa.Builtin); ok && b.Name() == "delete" && tb.Of(x.Common().Args[0]).Is("Field", "graphs") {
+					n++
+					r.Bad(rule, p.ShortFn(f)+":delete", p.InstrPos(in), "an event type's graph is deleted from Broker.graphs: its success thresholds are lost (a later read returns (0,false), a later registration starts from 0)")
+				}
+			case *ssa.MapUpdate:
+				if !tb.Of(x.Map).Is("Field", "graphs") {
+					return
+				}
+				n++
+				r.SawFn(p.ShortFn(f))
+				// value: a fresh graph; dominated by the !ok edge of a lookup of the same key in the same map
+				_, fresh := x.Value.(*ssa.Alloc)
+				okDom := false
+				keyS := tb.Of(x.Key).String()
+				for b := in.Block(); b != nil && b.Idom() != nil; b = b.Idom() {
+					cond, _, fsucc := condOf(b.Idom())
+					ex, isEx := cond.(*ssa.Extract)
+					if !isEx || ex.Index != 1 {
+						continue
+					}
+					lk, isLk := ex.Tuple.(*ssa.Lookup)
+					if isLk && tb.Of(lk.X).Is("Field", "graphs") && tb.Of(lk.Index).String() == keyS && (fsucc == b || fsucc.Dominates(in.Block())) {
+						okDom = true
+					}
+				}
+				r.Check(fresh && okDom, rule, p.ShortFn(f)+":insert", p.InstrPos(in), "Broker.graphs only gains a fresh graph under a key just found absent", "an entry of Broker.graphs may be replaced (not a fresh graph for an absent key): the thresholds stored in the old graph are lost")
+			case *ssa.Store:
+				if t := tb.Of(x.Addr); t.Op == "FieldAddr" && t.Name == "graphs" && !isFresh(x.Addr.(*ssa.FieldAddr).X) {
+					n++
+					r.Bad(rule, p.ShortFn(f)+":replace-map", p.InstrPos(in), "Broker.graphs is replaced as a whole after construction")
+				}
+			}
+		})
+	}
+	if n < 3 {
+		r.Und(rule, "instance-floor", "", fmt.Sprintf("only %d updates of Broker.graphs found (3 expected)", n))
+	}
 }
 
 // ---------------------------------------------------------------------------
